@@ -550,32 +550,8 @@ func (c *Ctx) chainOrder(bc *ssa.Function) {
 	// the middleware comes from the registered factory of chain[E], built from that element's own
 	// configuration — directly, or through a helper that is handed the element
 	const want = "call:dyn[glob:plugins.builtins[fld:config.PluginConfig.Name]#0](fld:config.PluginConfig.Name,fld:config.PluginConfig.Config)#0"
-	mwDesc := p.Desc(apply.Call.Value, nil)
+	mwDesc := p.SuccDesc(apply.Call.Value, 0)
 	mwOK := mwDesc == want
-	if !mwOK {
-		if ex, ok := stripConv(apply.Call.Value).(*ssa.Extract); ok && ex.Index == 0 {
-			if call, ok := ex.Tuple.(*ssa.Call); ok {
-				if h := StaticFn(call); h != nil && p.IsHelios(h) && h.Blocks != nil {
-					elemArg := false
-					for _, a := range call.Call.Args {
-						if strings.HasPrefix(p.Desc(a, nil), "fld:config.PluginsConfig.Chain[]") {
-							elemArg = true
-						}
-					}
-					okRet, nRet := true, 0
-					instrsOf(h, func(in ssa.Instruction) {
-						if r, ok := in.(*ssa.Return); ok && len(r.Results) == 2 && isConstNil(r.Results[1]) {
-							nRet++
-							if p.Desc(r.Results[0], nil) != want {
-								okRet = false
-							}
-						}
-					})
-					mwOK = elemArg && okRet && nRet > 0
-				}
-			}
-		}
-	}
 	if !mwOK {
 		bad = append(bad, "the middleware applied for an element is not exactly the registered factory of that element's name called with that element's own configuration (every listed entry must be built and validated from its own payload): "+mwDesc)
 	}
@@ -629,8 +605,41 @@ func (c *Ctx) chainOrder(bc *ssa.Function) {
 		})
 		return found
 	}
+	descending := func() bool {
+		// idx = φ + a ;  φ starts at len(chain) + s with s + a = −1, steps by −1, and the body runs while φ + a ≥ 0
+		base, a := p.linear(idxExpr, nil)
+		var ph *ssa.Phi
+		switch x := idxExpr.(type) {
+		case *ssa.Phi:
+			ph = x
+		case *ssa.BinOp:
+			ph, _ = x.X.(*ssa.Phi)
+		}
+		if ph == nil || len(ph.Edges) != 2 || p.Desc(ph, nil) != base {
+			return false
+		}
+		startOK, stepOK := false, false
+		for _, e := range ph.Edges {
+			if bo, ok := e.(*ssa.BinOp); ok && bo.Op == token.SUB && bo.X == ssa.Value(ph) {
+				if k, ok := constInt(bo.Y); ok && k == 1 {
+					stepOK = true
+					continue
+				}
+			}
+			sb, so := p.linear(e, nil)
+			if sb == "len(fld:config.PluginsConfig.Chain)" && so+a == -1 {
+				startOK = true
+			}
+		}
+		if !startOK || !stepOK {
+			return false
+		}
+		return hasCond(func(r Rel) bool { return r.X == base && r.Y == "" && !r.Neq && r.Lo == -a && r.Hi == posInf })
+	}
 	if idxExpr != nil {
-		if ph, ok := isCounter(idxExpr, -2, "-"); ok && idxExpr == ssa.Value(ph) {
+		if descending() {
+			orderOK = true
+		} else if ph, ok := isCounter(idxExpr, -2, "-"); ok && idxExpr == ssa.Value(ph) {
 			// i := len-1; i >= 0; i--
 			if hasCond(func(r Rel) bool { return strings.HasPrefix(r.X, "phi(") && r.Y == "" && r.Lo == 0 && r.Hi == posInf }) {
 				orderOK = true
